@@ -4,6 +4,7 @@ from engine import cfg
 from .common import reachable_local_fns, norm_path, guarded_by_variant, result_of
 from .server_common import Server
 
+EXTRA_CONFIGS = ('default', 'tokio1', 'serde1', 'serde-transport')   # feature configurations re-analysed in the thorough tier
 META = {
     'level': 'other',
     'technique': 'static provenance / who-may-call / dominator rules over MIR of the server channel, the in-flight table and InFlightRequest::execute; shape walker for source coverage',
